@@ -162,6 +162,9 @@ func (fv *FV) call(e *Env, x *ast.CallExpr) Value {
 			return fv.applyContract(e, x, u, recv, args, rt)
 		}
 	}
+	if name, ok := fv.eng.pureName(fn); ok {
+		return fv.pureCall(e, name, rt, recv, args)
+	}
 	if fv.eng.noEffect(fn) {
 		return fv.pureResult(e, fn, rt, recv, args)
 	}
@@ -176,6 +179,11 @@ func (fv *FV) recvValue(e *Env, x ast.Expr, fn *types.Func) Value {
 	xt := fv.typeOf(x)
 	if sig, ok := fn.Type().(*types.Signature); ok && sig.Recv() != nil && xt != nil {
 		if _, ptrRecv := sig.Recv().Type().Underlying().(*types.Pointer); ptrRecv {
+			if _, isPtr := xt.Underlying().(*types.Pointer); !isPtr && isObjectType(xt) {
+				v := fv.expr(e, x)
+				v.Type = types.NewPointer(xt) // (&x).m(): the callee may write the object
+				return v
+			}
 			if _, isPtr := xt.Underlying().(*types.Pointer); !isPtr && !isObjectType(xt) {
 				if _, isIface := xt.Underlying().(*types.Interface); !isIface {
 					// x.m() with pointer receiver on an addressable value: (&x).m()
@@ -240,7 +248,7 @@ func (fv *FV) opaqueCall(e *Env, x *ast.CallExpr, fn *types.Func, recv *Value, a
 			all = append([]Value{*recv}, args...)
 		}
 		for _, a := range all {
-			if fn != nil && fv.eng.argsOnly(fn) && a.Type != nil {
+			if fn != nil && (fv.eng.argsOnly(fn) || strings.Contains(fn.Name(), "Unmarshal")) && a.Type != nil {
 				if sl, ok := a.Type.Underlying().(*types.Slice); ok {
 					if b, ok := sl.Elem().Underlying().(*types.Basic); ok && b.Kind() == types.Uint8 {
 						continue // decoders read their input buffer, they do not write it
@@ -449,6 +457,9 @@ func (fv *FV) convert(e *Env, at ast.Node, v Value, from, to types.Type) Value {
 
 // sliceInner returns the backing Array Int elem of a slice.
 func (fv *FV) sliceInner(e *Env, s Value, es string) Term {
+	if s.Inner.S != "" {
+		return s.Inner
+	}
 	key := es
 	if es == sRef && s.Type != nil {
 		if sl, ok := s.Type.Underlying().(*types.Slice); ok {
@@ -1132,31 +1143,22 @@ func (fv *FV) ghostBuiltin(e *Env, x *ast.CallExpr, fn *types.Func) Value {
 		return Value{K: kScalar, T: ite(eq(m.T, tNull), intLit(0), fv.mapLen(e, m.T))}
 	case "gh_uf", "gh_ufb", "gh_ufr":
 		fname := "uf$" + sanitize(fv.strArg(x.Args[0]))
-		var args []Term
-		var sorts []string
+		var vals []Value
 		for _, a := range x.Args[1:] {
 			v := fv.expr(e, a)
-			if v.K == kSlice {
-				// pass content view: inner array, offset, length
-				es := sInt
-				if at := fv.typeOf(a); at != nil {
-					if sl, ok := at.Underlying().(*types.Slice); ok {
-						es = elemSortOf(sl.Elem())
-					}
-				}
-				inner := fv.sliceInner(e, v, es)
-				args = append(args, inner, v.Off, v.Len)
-				sorts = append(sorts, inner.Sort, sInt, sInt)
-				continue
+			if v.Type == nil {
+				v.Type = fv.typeOf(a)
 			}
-			args = append(args, v.T)
-			sorts = append(sorts, v.T.Sort)
+			vals = append(vals, v)
 		}
+		args, sorts := fv.ufArgs(e, vals)
 		ret := sInt
 		if name == "gh_ufb" {
 			ret = sBool
 		} else if name == "gh_ufr" {
-			_, ret = sortOf(rt)
+			if k, srt := sortOf(rt); k == kScalar {
+				ret = srt
+			}
 		}
 		fname += "$" + sanitize(strings.Join(sorts, "_"))
 		if len(args) == 0 {
@@ -1279,7 +1281,7 @@ func (fv *FV) specPureCall(e *Env, x *ast.CallExpr, fn *types.Func, recvX ast.Ex
 	switch fn.FullName() {
 	case "bytes.Equal":
 		a, b := fv.expr(e, x.Args[0]), fv.expr(e, x.Args[1])
-		return Value{K: kScalar, T: fv.bytesEq(e, a, e, b)}, true
+		return Value{K: kScalar, T: eq(fv.bytesID(e, a), fv.bytesID(e, b))}, true
 	}
 	return Value{}, false
 }
@@ -1435,4 +1437,78 @@ func (fv *FV) mapCardFacts(e *Env, m Term, mt *types.Map) {
 func isInterfaceType(t types.Type) bool {
 	_, ok := t.Underlying().(*types.Interface)
 	return ok
+}
+
+// ufArgs turns values into uninterpreted-function arguments: byte slices by
+// the identity of their contents, everything else by value / reference.
+func (fv *FV) ufArgs(e *Env, vals []Value) ([]Term, []string) {
+	var args []Term
+	var sorts []string
+	for _, v := range vals {
+		if v.K == kSlice {
+			isBytes := true
+			if v.Type != nil {
+				if sl, ok := v.Type.Underlying().(*types.Slice); ok {
+					b, isB := sl.Elem().Underlying().(*types.Basic)
+					isBytes = isB && b.Kind() == types.Uint8
+				}
+			}
+			if isBytes {
+				t := fv.bytesID(e, v)
+				args = append(args, t)
+				sorts = append(sorts, sInt)
+				continue
+			}
+			args = append(args, v.T, v.Off, v.Len)
+			sorts = append(sorts, sRef, sInt, sInt)
+			continue
+		}
+		args = append(args, v.T)
+		sorts = append(sorts, v.T.Sort)
+	}
+	return args, sorts
+}
+
+// pureCall: the callee is a deterministic function of its arguments
+// (declared `pure:<name>` in contracts/noeffect.txt). Byte-slice results are
+// identified by their contents.
+func (fv *FV) pureCall(e *Env, name string, rt types.Type, recv *Value, args []Value) Value {
+	all := args
+	if recv != nil {
+		all = append([]Value{*recv}, args...)
+	}
+	ts, sorts := fv.ufArgs(e, all)
+	mk := func(suffix, ret string) Term {
+		fname := "uf$" + sanitize(name) + suffix + "$" + sanitize(strings.Join(sorts, "_"))
+		if len(ts) == 0 {
+			return fv.s.declConst(fname, ret)
+		}
+		fv.s.declFun(fname, sorts, ret)
+		return app(ret, fname, ts...)
+	}
+	var one func(t types.Type, suffix string) Value
+	one = func(t types.Type, suffix string) Value {
+		k, srt := sortOf(t)
+		switch k {
+		case kSlice:
+			v := fv.freshValue(t, "r$"+name)
+			fv.assume(e, eq(fv.bytesID(e, v), mk(suffix, sInt)))
+			fv.assumeAllocated(e, v)
+			return v
+		case kTuple:
+			tup := t.(*types.Tuple)
+			out := Value{K: kTuple, Type: t}
+			for i := 0; i < tup.Len(); i++ {
+				out.Tuple = append(out.Tuple, one(tup.At(i).Type(), fmt.Sprintf("%s.%d", suffix, i)))
+			}
+			return out
+		}
+		v := Value{K: kScalar, T: mk(suffix, srt), Type: t}
+		fv.assume(e, rangeFact(v.T, t))
+		return v
+	}
+	if rt == nil {
+		return Value{}
+	}
+	return one(rt, "")
 }
